@@ -1,4 +1,5 @@
 #!/bin/bash
 # tools/run_seeded.sh <seed dir name> <ID> [tier] : run check <ID> against /verif/seeded/<name>/patch.diff (scratch copy of /repo)
 HERE="$(cd "$(dirname "$0")/.." && pwd)"
-exec "$HERE/selftest/run_mutant.sh" "$HERE/seeded/$1/patch.diff" "$2" "${3:-quick}"
+P="$HERE/seeded/$1/patch.diff"; [ -f "$HERE/seeded/$1/patch_current.diff" ] && P="$HERE/seeded/$1/patch_current.diff"
+exec "$HERE/selftest/run_mutant.sh" "$P" "$2" "${3:-quick}"
